@@ -191,7 +191,34 @@ def h_expr_boundary(a: int, b: int, op: int, fn: str):
     B = BOUNDARY_OPERANDS[choose(b, len(BOUNDARY_OPERANDS))]
     O = BOUNDARY_OPS[choose(op, len(BOUNDARY_OPS))]
     text = (A + " " + O + " " + B) if O else A
-    return untraced(call_magic, fn, [text, "yes", "no"] if fn == "#IFEXPR" else [text])
+    args = [text, "yes", "no"] if fn == "#IFEXPR" else [text]
+    return untraced(_timed_call_magic, fn, args)
+
+
+BOUNDARY_WALL_S = 20  # a boundary expression (<= 650 characters) evaluates in milliseconds; CPython checks signals inside long arithmetic
+
+
+def _timed_call_magic(fn, args):
+    """call_magic on concrete arguments under a wall-clock alarm: work that grows with the *value* of a numeral (an exact integer
+    power, a huge repetition) does not come back, and a path that never returns would only make the cube inconclusive."""
+    import signal
+    import threading
+
+    if threading.current_thread() is not threading.main_thread():
+        return call_magic(fn, args)
+
+    def on_alarm(signum, frame):
+        raise WorkBound("no result within %d s" % BOUNDARY_WALL_S)
+
+    old = signal.signal(signal.SIGALRM, on_alarm)
+    signal.setitimer(signal.ITIMER_REAL, BOUNDARY_WALL_S)
+    try:
+        return call_magic(fn, args)
+    except WorkBound as w:  # raised outside call_magic's own try (e.g. in its finally)
+        return {"sig": f"{fn}|unbounded-work", "name": fn, "args": list(args), "detail": str(w)}
+    finally:
+        signal.setitimer(signal.ITIMER_REAL, 0)
+        signal.signal(signal.SIGALRM, old)
 
 
 def twin_pad(n: int):
